@@ -25,6 +25,8 @@ def run(ctx):
         "UseLock = TRUE", "UseLock = FALSE"), workers=8, timeout=600, count=False, tag="mutant reader without lock")
     if m.violated != "IntervalConsistent":
         raise vlib.Infra("vacuity: the lock-free reader satisfies IntervalConsistent")
+    # unbounded: lock discipline for ANY writers / readers / programs - a lookup never scans a half-migrated filter
+    ctx.tlaps("netutil", "IPv4FilterConcProof", timeout=900, tag="IPv4FilterConcProof (MutualExclusion, ScanSeesStableFilter)")
     hb = ctx.build("ipconc", race=True)
     nruns = 10 if q else 80
     p = ctx.run([hb, "-runs", str(nruns), "-out", ctx.path("traces.ndjson"), "-churn", "90" if q else "140"], timeout=2400,
